@@ -1295,6 +1295,12 @@ var vtACSNames = map[byte]rune{
 func (t *tScreen) buildAcsMap() {
 	acsstr := t.ti.AltChars
 	t.acs = make(map[rune]string)
+	// The glyph strings are written as they are, not through TPuts, so
+	// they must not carry terminfo padding (vt220: "\x1b(0$<2>").
+	var enter, exit strings.Builder
+	pad := &terminfo.Terminfo{}
+	pad.TPuts(&enter, t.ti.EnterAcs)
+	pad.TPuts(&exit, t.ti.ExitAcs)
 	for len(acsstr) > 2 {
 		srcv := acsstr[0]
 		// the glyph is a byte of the terminal's alternate character
@@ -1302,7 +1308,7 @@ func (t *tScreen) buildAcsMap() {
 		// keep it as that byte, not as a UTF-8 encoded rune
 		dstv := acsstr[1:2]
 		if r, ok := vtACSNames[srcv]; ok {
-			t.acs[r] = t.ti.EnterAcs + dstv + t.ti.ExitAcs
+			t.acs[r] = enter.String() + dstv + exit.String()
 		}
 		acsstr = acsstr[2:]
 	}
